@@ -594,7 +594,7 @@ func C03(tier rt.Tier) int {
 			{name: "merge-changes-2children", initial: map[string]string{"0a1b": "p", "0b22": "p"}, paths: pfPaths[:4], vals: []string{"x"}, children: 2, opsPerKid: 2, directOps: false, depth: 5, viaChanges: true},
 		}
 	} else {
-		per = 4 * time.Minute
+		per = 150 * time.Second
 		runs = []txConfig{
 			{name: "prefixfree-3children", initial: map[string]string{"0a1b": "p", "0b22": "p"}, paths: pfPaths, vals: []string{"x", "y"}, children: 3, opsPerKid: 3, directOps: true, depth: 7},
 			{name: "nested-2children-pnodedb", persistent: true, initial: map[string]string{"aa": "p", "aaab": "p"}, paths: nested, vals: []string{"x", "y"}, children: 2, opsPerKid: 3, directOps: true, depth: 7},
